@@ -213,6 +213,7 @@ func (fr *Frame) val(v ssa.Value) Val {
 		return Val{T: x.Type(), C: []string{"0"}, Loc: &Loc{Kind: LocGlobal, Key: "G:" + gv.Pkg().Name() + "." + gv.Name(), T: t}}
 	case *ssa.Function:
 		id := vc.fresh("fn_"+x.Name(), "Int")
+		vc.axiom("(not (= " + id + " 0))") // a function value denoting a declared function is never nil
 		fr.top().closures[id] = &closureRec{fn: x}
 		return Val{T: x.Type(), C: []string{id}}
 	case *ssa.Builtin:
@@ -914,6 +915,7 @@ func (fr *Frame) instr(st *State, ins ssa.Instruction) {
 		fr.regs[x.(ssa.Value)] = Val{T: x.(ssa.Value).Type(), C: []string{ref}}
 	case *ssa.MakeClosure:
 		id := vc.fresh("closure", "Int")
+		vc.axiom("(not (= " + id + " 0))") // a closure value is never nil
 		var bs []Val
 		for _, b := range x.Bindings {
 			bs = append(bs, fr.val(b))
